@@ -73,7 +73,7 @@ def structure_case(p, res):
     ft, par, how = p["ft"], p["par"], p["how"]
     cfgb = f"{par},{how}"
     for L in (6, 7, 12):
-        shapes = [(L,), (1, L), (3, L)] + ([(2, 3, 2, 2)] if L == 12 else [])
+        shapes = [(L,), (1, L), (3, L)] + ([(2, 3, 2, 2)] if L == 12 else []) + ([(11, L)] if L == 6 else [])      # (batches that are neither small nor a multiple of 8)
         for T in range(1, L + 1):
             if p["tier"] == "quick" and L == 12 and T not in (1, 2, 5, 6, 7, 12):
                 continue
@@ -120,7 +120,7 @@ def structure_case(p, res):
                             yy = ch(x, noise=zz)
                         hhat = (yy.reshape(B, n) / x.reshape(B, n).to(torch.complex64))
                         return hhat, pol
-                    base = [0.11 + 0.0173 * k + 0.00041 * k * k for k in range(160)]
+                    base = [0.11 + 0.0173 * k + 0.00041 * k * k for k in range(160)] + [3.7 + 0.0031 * k for k in range(160, 420)]
                     try:
                         h0, pol = run(base)
                     except Exception as e:  # noqa: BLE001
@@ -162,8 +162,9 @@ def structure_case(p, res):
                     if nb * B > 1 and len({(round(c.real, 5), round(c.imag, 5)) for c in vals}) != len(vals):
                         v("private-draws", f"different blocks / items received identical gains from all-distinct draws ({len(vals)} blocks)")
                     if D > 150:
-                        v("private-draws", f"{D} draws for {B}x{nb} blocks")
-                        continue
+                        if D > 3 * B * nb + 8:
+                            v("private-draws", f"{D} draws for {B}x{nb} blocks")
+                        continue        # (large batches: distinctness of all gains is checked above; the per-draw ownership analysis is for the small ones)
                     owner = {}
                     for d in range(D):
                         a = list(base)
